@@ -2107,3 +2107,37 @@ Proof.
   - destruct Hok as [Hc Hr]. destruct Hpf as [Hp Hpr]. destruct (run_call_Bnd s c HB HD Hc) as [HB' HD'].
     apply IH; [apply run_call_accepted_NInv; assumption|exact HB'|exact HD'|exact Hr|exact Hpr].
 Qed.
+
+(* ------------------------------------------------------------------ *)
+(* 12. finalize is local to the call: lib.rs:685-690 / 780-785 walk     *)
+(*     base_id..next_id only                                            *)
+(* ------------------------------------------------------------------ *)
+Lemma in_range_lt : forall cnt lo k, In k (range lo cnt) -> k < lo + N.of_nat cnt.
+Proof.
+  induction cnt as [|c IH]; intros lo k H; cbn [range] in H; [destruct H|].
+  destruct H as [->|H]; [lia|]. apply IH in H. lia.
+Qed.
+
+(* the ids finalize_range re-inserts *)
+Definition finalize_ids (base : N) (s : space) : list id := range base (N.to_nat (next_id s - base)).
+
+Lemma finalize_local : forall base s,
+  finalize_range base s = fold_left finalize_one (finalize_ids base s) s
+  /\ (forall i, In i (finalize_ids base s) -> base <= i < next_id s)
+  /\ (forall k, lookup N.eqb k (entries (finalize_range base s)) = lookup N.eqb k (entries s))
+  /\ next_id (finalize_range base s) = next_id s
+  /\ name_to_id (finalize_range base s) = name_to_id s
+  /\ type_to_id (finalize_range base s) = type_to_id s
+  /\ ref_to_id (finalize_range base s) = ref_to_id s.
+Proof.
+  intros base s. split; [reflexivity|]. split.
+  - intros i Hi. unfold finalize_ids in Hi. pose proof (in_range _ _ _ Hi). pose proof (in_range_lt _ _ _ Hi). lia.
+  - split; [intro k; apply finalize_range_lookup|]. split; [apply finalize_range_next|].
+    destruct (fold_finalize_idx (range base (N.to_nat (next_id s - base))) s) as [A [B C]].
+    unfold finalize_range. auto.
+Qed.
+
+(* in a call the range starts at the call's base id: no id that existed before the call is finalized again *)
+Lemma finalize_of_call_local : forall s i, i < next_id s ->
+  forall s', next_id s <= next_id s' -> ~ In i (finalize_ids (next_id s) s').
+Proof. intros s i Hi s' _ Hin. unfold finalize_ids in Hin. apply in_range in Hin. lia. Qed.
